@@ -167,7 +167,7 @@ func init() {
 	Register(Spec[sigCase]{
 		ID: "C03", Suite: "hist", CoqImports: []string{"Check.C03"},
 		CoqType: "list Check.C01.hop", CoqRun: "Check.C03.run",
-		Quick: 500, Thorough: 15000, Parallel: 8,
+		Quick: 500, Thorough: 8000, Parallel: 8,
 		Corpus: func() []sigCase {
 			// witnesses of c03_remote_full_refuted / c03_remote_classes_refuted: a fresh
 			// connection given the peer's offer with one thing removed
